@@ -15,7 +15,9 @@ Optional fields: 'ik' = how the constructor's `values` are passed ('list' (defau
 'prog': {str(k): [act, ...]} makes on_miss RE-ENTRANT: before it returns / raises as 'om' says, on_miss(k) performs the
 acts (ops in the format below; the cache number is ignored) on the very cache whose lookup called it (the RLock
 permits that); an act that raises ends the callback with that exception; lookups among the acts may miss and call
-on_miss again; 'depth' (default 3) is the nesting depth at which the callback raises ValueError instead.
+on_miss again; 'depth' (default 3) is the nesting depth at which the callback raises ValueError instead.  An act whose
+name starts with '?' is wrapped in try / except Exception: pass by the callback.  'st': s makes the callback stateful: it
+returns a*k + b + s * (number of on_miss calls made on this cache before this one).
 Argument kinds of update / |=: 'dict' | 'list' | 'iter' | 'self' | 'map' (a mapping that is not a dict: keys() +
 __getitem__) | 'cache' (another cache of the world, op[3] = its number) | 'fail' (a generator that yields the pairs,
 then raises ValueError) | 'bad' (a list of the pairs followed by a malformed 1-tuple -> ValueError) | 'none'
@@ -143,22 +145,23 @@ DEFAULT_DEPTH = 3
 
 
 class Ref:
-    def __init__(self, lru, max_size, om, prog=None, depth=DEFAULT_DEPTH):
+    def __init__(self, lru, max_size, om, prog=None, depth=DEFAULT_DEPTH, st=0):
         self.lru, self.max, self.om = lru, max_size, om
-        self.prog, self.depth = prog, depth
+        self.prog, self.depth, self.st = prog, depth, st
+        self.ncalls = 0            # on_miss calls made on this cache so far (the callback's own state)
         self.vals, self.stamp, self.clock = {}, {}, 0
         self.h = self.m = self.s = 0
         self.evictions = 0
         self.nested = 0
 
     def clone(self):
-        r = Ref(self.lru, self.max, self.om, self.prog, self.depth)
+        r = Ref(self.lru, self.max, self.om, self.prog, self.depth, self.st)
         r.vals, r.stamp, r.clock = dict(self.vals), dict(self.stamp), self.clock
         return r
 
     def clone_full(self):
         r = self.clone()
-        r.h, r.m, r.s, r.evictions = self.h, self.m, self.s, self.evictions
+        r.h, r.m, r.s, r.evictions, r.ncalls = self.h, self.m, self.s, self.evictions, self.ncalls
         return r
 
     def assign(self, k, v):
@@ -187,26 +190,28 @@ class Ref:
         self.m += 1
         if self.om is not None:
             calls = [k]
+            earlier = self.ncalls
+            self.ncalls += 1
             if self.prog is not None:
                 if depth >= self.depth:
                     return False, None, calls, 'ValueError'
                 for act in self.prog.get(str(k), ()):
                     self.nested += 1
                     exc = self.act(act, depth + 1, calls)
-                    if exc is not None:
+                    if exc is not None and not act[0].startswith('?'):
                         return False, None, calls, exc
             if len(self.om) > 2 and k in self.om[2]:
                 return False, None, calls, 'KeyError'
             if len(self.om) > 2 and k in self.om[3]:
                 return False, None, calls, 'ValueError'
-            v = self.om[0] * k + self.om[1]
+            v = self.om[0] * k + self.om[1] + self.st * earlier
             self.assign(k, v)
             return True, v, calls, None
         return False, None, [], None
 
     def act(self, op, depth, calls):
         """one dict-API call made by on_miss on the cache; -> the class of the exception it raises, or None"""
-        name, a = op[0], op[2:]
+        name, a = op[0].lstrip('?'), op[2:]
         if name == 'set':
             self.assign(a[0], a[1])
         elif name in LOOKUPS:
@@ -254,7 +259,8 @@ class C02(Property):
             'RE-ENTRANT on_miss: a callback that, before it returns / raises, itself calls methods of the cache that is waiting '
             'for its result (per key a program of set / item get / get / setdefault / del / pop / clear / update / |= / in / len '
             'calls: stores the key itself, prefetches or drops a neighbour, clears, fills the cache beyond capacity, looks other '
-            'absent keys up - nested on_miss calls down to a depth guard of 1-3 -, raises after mutating), '
+            'absent keys up - nested on_miss calls down to a depth guard of 1-3 -, raises after mutating, wraps some of its calls in '
+            'try / except, keeps state: its value depends on how often it was called on that cache), '
             'constructor values passed as list / dict / iterator / mapping object, over max_size+1..+3 keys (strings, the '
             'aliases 1/1.0/True, or exotic hashables: None, (), \'\', tuples, frozensets, negative and huge ints, bytes), '
             'ended by a probe that inserts max_size (+1 in the scripted, adversarial and half of the random cases) fresh keys '
@@ -263,19 +269,19 @@ class C02(Property):
             'scripted scenarios (falsy on_miss results, stored None, removal of a None-valued newest/oldest key then overflow, '
             'lookups on a not-yet-full LRU, update/|= with exactly the current contents after a reorder, equal contents in a '
             'different dict order, every argument kind overflowing with duplicates, one cache read into another then both '
-            'diverging, keyword arguments overlapping E; plus the two families of the fixed findings: update(**kw) alone, a falsy callable as on_miss; get / setdefault / pop defaults identical to the stored value or to on_miss\'s result), 2016 scripted re-entrant '
-            'on_miss scenarios (12 program kinds x 3 result kinds x every kind of lookup, loading max_size+1 keys, refresh, '
+            'diverging, keyword arguments overlapping E; plus the two families of the fixed findings: update(**kw) alone, a falsy callable as on_miss; get / setdefault / pop defaults identical to the stored value or to on_miss\'s result), 2160 scripted re-entrant '
+            'on_miss scenarios (13 program kinds x 3 result kinds x every kind of lookup, loading max_size+1 keys, refresh, '
             'overflow, copy), 14 (thorough 60) big-'
             'capacity cases with bulk updates of 34-400 pairs, 300 adversarial scripts; (1) exhaustive: all histories of <=2 '
             'calls over a 43-call alphabet on 3 keys x max_size 1-3 x both classes x on_miss none / total / raising, and all '
-            'histories of <=2 calls over a 12-call alphabet x 11 re-entrant on_miss programs x max_size 1-2 (6864 cases); (2) 14k '
+            'histories of <=2 calls over a 12-call alphabet x 12 re-entrant on_miss programs x max_size 1-2 (7488 cases); (2) 14k '
             '(thorough 60k) sampled 3-5-call histories on pre-filled caches; (3) 1500 (6000) adversarial scripts of 13 kinds; '
-            '(4) 8000 (120000) random histories of 4-40 (thorough up to 300) calls (45% of those with an on_miss, and 40% of the '
+            '(4) 8000 (105000) random histories of 4-40 (thorough up to 300) calls (45% of those with an on_miss, and 40% of the '
             'adversarial scripts with one, make it re-entrant with random programs). 3 cases of 4 run on the pointer-level Lean '
             'model of the linked list (C02.hwstep / C02.rhwstep), the others on the ring model (C02.wstep / C02.rwstep). Non-trivial = at least one '
             'eviction happened in the reference cache; distinct = distinct whole case.')
     ASSUMPTIONS = ['keys are hashable with == consistent with hash; values are compared with ==',
-                   'on_miss is a function of the key: it may call any dict-API method of the cache it was called from (re-entrantly, any nesting depth), then returns a value, raises KeyError or raises another exception (ValueError in the generators); it does not catch exceptions raised by its own calls on the cache, and does not touch OTHER caches',
+                   'on_miss is a deterministic callback: it may call any dict-API method of the cache it was called from (re-entrantly, any nesting depth, any try / except around those calls, any branching on their results in the Lean model - straight-line programs with optional try / except in the generators), may keep state of its own (in the model: any function of the keys it was called with before; in the generators: its call count), then returns a value, raises KeyError or raises another exception (ValueError in the generators); it does not touch OTHER caches',
                    'max_size is an int >= 1 and is not reassigned after construction',
                    'one thread (C03 covers concurrency)',
                    'a failing update(): the statement does not say what remains; the oracle accepts "the pairs received before the exception are assigned" (dict.update, and the model) or "none of them"; update(other_cache): the oracle accepts the source either untouched or looked up once per item (the model: looked up)']
@@ -371,7 +377,7 @@ class C02(Property):
         for c in self.adversarial(rng, 6000 if self.thorough else 1500):
             yield c
         # (4) random long histories
-        n_rand = 120000 if self.thorough else 8000
+        n_rand = 105000 if self.thorough else 8000
         for i in range(n_rand):
             yield self.random_case(rng, big=self.thorough and i % 8 == 0)
 
@@ -472,6 +478,8 @@ class C02(Property):
         if om is not None and rng.random() < 0.45:
             case['prog'] = self.random_prog(rng, nk, mx)
             case['depth'] = rng.choice((1, 2, 3, 3))
+            if rng.random() < 0.4:
+                case['st'] = rng.choice((1, 2, 5))
         if init is not None and rng.random() < 0.5:
             case['ik'] = rng.choice(('dict', 'iter', 'map'))
         self.fill_eq(case, rng)
@@ -665,6 +673,7 @@ class C02(Property):
             ('soft_next', table(lambda k: [['get', 0, n1(k), 5], ['setdefault', 0, n2(k), 6]])),
             ('fill', table(lambda k: [['update', 0, 'list', [[j, 1 + j] for j in range(nk)], []]])),
             ('self_hit', table(lambda k: [['set', 0, k, 9], ['getitem', 0, k], ['get', 0, k, 9]])),
+            ('guarded', table(lambda k: [['?del', 0, n1(k)], ['set', 0, k, 9], ['?getitem', 0, n2(k)], ['?pop', 0, n2(k)]])),   # try / except around its calls
             ('only0', {'0': [['set', 0, 0, 9], ['set', 0, 1, 8]]}),              # other keys: an ordinary loader
             ('empty', {}),                                                       # no acts at all: must equal the plain on_miss
         ]
@@ -680,6 +689,8 @@ class C02(Property):
                             for depth in ((1, 3) if name in ('get_next', 'soft_next') else (3,)):
                                 base = {'cls': cls, 'max': mx, 'om': om, 'km': km, 'nk': nk, 'init': None, 'prog': prog,
                                         'depth': depth}
+                                if km == 'n' and name in ('self', 'get_next', 'guarded', 'empty', 'clear'):
+                                    base['st'] = 3        # a callback with state: the value depends on its call count
                                 # load every key through every kind of lookup, refresh the first, insert one more
                                 for look in LOOKUPS:
                                     ops = [[look, 0, k] for k in range(mx + 1)]
@@ -740,6 +751,8 @@ class C02(Property):
                             acts[-1][3] = dedup(acts[-1][3])
                     else:
                         acts.append(rng.choice((['in', 0, t], ['len', 0])))
+                    if rng.random() < 0.25:
+                        acts[-1][0] = '?' + acts[-1][0]       # the callback catches whatever this call raises
                 prog[str(k)] = acts
         return prog
 
@@ -882,13 +895,16 @@ class C02(Property):
         om = self.om_txt(case['om'])
         if case.get('prog') is not None and case['om'] is not None:
             # re-entrant on_miss: a,b/ke/ve/k=act+act~k=act/depth  (acts are op tokens on cache number 0)
+            if case.get('st'):
+                om = '%d,%d,%d' % (case['om'][0], case['om'][1], case['st']) + om[len('%d,%d' % tuple(case['om'][:2])):]
             if len(case['om']) == 2:
                 om += '/-/-'
             progs = []
             for k in sorted(case['prog'], key=int):
-                acts = [self.op_tok([a[0], 0] + list(a[2:])) for a in case['prog'][k]]
-                if any(t is None for t in acts) or any(a[0] not in ACT_NAMES for a in case['prog'][k]):
+                acts = [self.op_tok([a[0].lstrip('?'), 0] + list(a[2:])) for a in case['prog'][k]]
+                if any(t is None for t in acts) or any(a[0].lstrip('?') not in ACT_NAMES for a in case['prog'][k]):
                     return None
+                acts = [('?' if a[0].startswith('?') else '') + t for a, t in zip(case['prog'][k], acts)]
                 progs.append('%s=%s' % (k, '+'.join(acts) or '-'))
             om += '/%s/%d' % ('~'.join(progs) or '-', case.get('depth', DEFAULT_DEPTH))
         toks = ['1' if case['cls'] == 'LRU' else '0', str(case['max']), om, str(case['nk']),
@@ -916,11 +932,15 @@ class C02(Property):
 
             prog = case.get('prog')
             max_depth = case.get('depth', DEFAULT_DEPTH)
+            st = case.get('st', 0) if prog is not None else 0
             nest = [0]
+            ncalls = {}            # id(cache) -> on_miss calls made on it so far (the callback's own state)
 
             def om(key):
                 k = dec_key(km, key)
                 calls.append(k)
+                earlier = ncalls.get(id(cur[0]), 0)
+                ncalls[id(cur[0])] = earlier + 1
                 if prog is not None:
                     # re-entrant: the callback uses the cache whose lookup called it before it answers
                     if nest[0] >= max_depth:
@@ -928,14 +948,22 @@ class C02(Property):
                     nest[0] += 1
                     try:
                         for j, act in enumerate(prog.get(str(k), ())):
-                            do(cur[1] + 7 * (j + 1), act, cur[0])
+                            if act[0].startswith('?'):
+                                try:
+                                    do(cur[1] + 7 * (j + 1), [act[0][1:]] + list(act[1:]), cur[0])
+                                except CaseTimeout:
+                                    raise
+                                except Exception:
+                                    pass
+                            else:
+                                do(cur[1] + 7 * (j + 1), act, cur[0])
                     finally:
                         nest[0] -= 1
                 if k in ke:
                     raise KeyError(key)
                 if k in ve:
                     raise ValueError(key)
-                return enc_val(a * k + b) if isinstance(k, int) else None
+                return enc_val(a * k + b + st * earlier) if isinstance(k, int) else None
             if case.get('omk') == 'falsy':
                 om = FalsyCallable(om)
         recs = []
@@ -1124,8 +1152,9 @@ class C02(Property):
         """Run the reference caches over the history.  With `obs`: judge the observation, return a Failure or
         None.  With `upto_placeholders`: fill the `None` operands of ==/!= from the reference contents."""
         lru = case['cls'] == 'LRU'
-        refs = [Ref(lru, case['max'], case['om'], case.get('prog') if case['om'] is not None else None,
-                    case.get('depth', DEFAULT_DEPTH))]
+        has_prog = case['om'] is not None and case.get('prog') is not None
+        refs = [Ref(lru, case['max'], case['om'], case.get('prog') if has_prog else None,
+                    case.get('depth', DEFAULT_DEPTH), case.get('st', 0) if has_prog else 0)]
         judge = obs is not None
         ctx = {'si': None}
 
@@ -1413,7 +1442,9 @@ class C02(Property):
         if case.get('ik'):
             yield {k: v for k, v in case.items() if k != 'ik'}
         if case.get('prog') is not None:
-            yield {k: v for k, v in case.items() if k not in ('prog', 'depth')}
+            yield {k: v for k, v in case.items() if k not in ('prog', 'depth', 'st')}
+            if case.get('st'):
+                yield {k: v for k, v in case.items() if k != 'st'}
             for key in sorted(case['prog']):
                 yield dict(case, prog={k: v for k, v in case['prog'].items() if k != key})
             for key in sorted(case['prog']):
